@@ -193,13 +193,24 @@ def run_explicit(profile, scn, timeout=60.0, **kw):
     return engine.fork_call(evaluate, (task, root), timeout=timeout)
 
 
-def same_violation(res, rule):
+def signature(detail):
+    """what kind of violation a detail text describes, with identifiers, numbers
+    and quoted / bracketed payloads removed (minimisation keeps a candidate only if
+    the same rule fires for the same kind of reason)"""
+    text = detail.split(': ', 1)[1] if ': ' in detail else detail
+    text = re.sub(r"'[^']*'|\"[^\"]*\"|\[[^\]]*\]|\([^)]*\)", '', text)
+    text = re.sub(r'[0-9]+', '', text)
+    text = re.sub(r'\b(?:simpkg|q|Tk|Wr)[\w.:#]*', '', text)
+    return ' '.join(text.split())[:48]
+
+
+def same_violation(res, rule, sig=None):
     tag, val = res
     if tag == 'timeout':
         return rule.endswith('.HANG')
     if tag != 'ok':
         return False
-    return any(v['rule'] == rule for v in val['violations'])
+    return any(v['rule'] == rule and (sig is None or signature(v['detail']) == sig) for v in val['violations'])
 
 
 def _candidates(scn):
@@ -331,7 +342,7 @@ def _refs_ok(scn):
     return True
 
 
-def minimise(profile, scn, rule, budget_s=25.0, log=None):
+def minimise(profile, scn, rule, budget_s=25.0, log=None, sig=None):
     t_end = time.monotonic() + budget_s
     cur = scn
     tried = 0
@@ -343,7 +354,7 @@ def minimise(profile, scn, rule, budget_s=25.0, log=None):
                 break
             tried += 1
             res = run_explicit(profile, cand)
-            if same_violation(res, rule):
+            if same_violation(res, rule, sig):
                 cur = cand
                 improved = True
                 if log:
@@ -553,12 +564,12 @@ def run_check(pid, tier, seed, jobs, n_override=None, budget=None, out=print):
             lst.sort(key=lambda x: (len(W.dumps(x[2])) if x[2] else 1 << 30))
             idx, v, scn = lst[0]
             out('violation %s in %d run(s); first: index %s: %s' % (rule, len(lst), idx, v['detail']))
-            small, tried = minimise(pid, scn, rule, log=None)
+            small, tried = minimise(pid, scn, rule, log=None, sig=signature(v['detail']))
             res = run_explicit(pid, small)
             vv = v
             if res[0] == 'ok':
                 for x in res[1]['violations']:
-                    if x['rule'] == rule:
+                    if x['rule'] == rule and signature(x['detail']) == signature(v['detail']):
                         vv = x
                         break
             path = write_replay(pid, vv, small, note='minimised from seed %s index %s (%d candidates tried)' % (seed, idx, tried))
